@@ -4,6 +4,7 @@ import (
 	"bytes"
 	"context"
 	"math"
+	"sync"
 	"time"
 
 	"github.com/pkg/errors"
@@ -27,6 +28,8 @@ type TempPool struct {
 	cleanRemovedNewOperationsDeep     int
 	cleanRemovedProposalDeep          int
 	cleanRemovedBallotDeep            int
+	setproposall                      sync.Mutex
+	setballotl                        sync.Mutex
 }
 
 func NewTempPool(
@@ -171,6 +174,10 @@ func (db *TempPool) SetProposal(pr base.ProposalSignFact) (bool, error) {
 	}
 
 	key := leveldbProposalKey(pr.Fact().Hash())
+
+	// NOTE check and put should be atomic; the first one is kept
+	db.setproposall.Lock()
+	defer db.setproposall.Unlock()
 
 	switch found, err := pst.Exists(key); {
 	case err != nil:
@@ -791,6 +798,10 @@ func (db *TempPool) SetBallot(bl base.Ballot) (bool, error) {
 	key := leveldbBallotKey(bl.Point(), isaac.IsSuffrageConfirmBallotFact(bl.SignFact().Fact()))
 
 	var blb []byte
+
+	// NOTE check and put should be atomic; the first one is kept
+	db.setballotl.Lock()
+	defer db.setballotl.Unlock()
 
 	switch found, err := pst.Exists(key); {
 	case err != nil:
